@@ -105,10 +105,27 @@ func c04Positions(level int) []c04Pos {
 	return ps
 }
 
+// c04Family returns the C04 programs (for re-use by C17).
+func c04Family(level int) []SCase {
+	cases, _ := c04Cases(level)
+	return cases
+}
+
 func c04(ctx *Ctx) {
+	cases, paths := c04Cases(ctx.Level)
+	runBehaviour(ctx, behaviour{Name: "required", Cases: cases, Devs: c04Devs,
+		DocGen: func(sc *SCase, m *refmodel.Model) []refmodel.Doc {
+			base := m.Docs(1)[0].V
+			return c04Docs(base, paths[sc.ID])
+		}})
+	ctx.Run.Assume("a property that declares a default is never required (statement: 'and not given a default')",
+		"null for a required non-nullable property is outside the statement and not generated")
+}
+
+func c04Cases(level int) ([]SCase, map[string][]any) {
 	kinds := c04Kinds()
 	var triples [][]int
-	if ctx.Level == 0 {
+	if level == 0 {
 		triples = [][]int{{0, 1, 2}, {3, 4, 5}, {6, 7, 0}, {8, 9, 4}}
 	} else {
 		for i := 0; i < len(kinds); i++ {
@@ -123,7 +140,7 @@ func c04(ctx *Ctx) {
 	names := []string{"a", "b", "c", "d"}
 	var cases []SCase
 	paths := map[string][]any{}
-	for _, pos := range c04Positions(ctx.Level) {
+	for _, pos := range c04Positions(level) {
 		for _, tr := range triples {
 			n := len(tr)
 			for mask := 0; mask < 1<<n; mask++ {
@@ -174,13 +191,7 @@ func c04(ctx *Ctx) {
 			}
 		}
 	}
-	runBehaviour(ctx, behaviour{Name: "required", Cases: cases, Devs: c04Devs,
-		DocGen: func(sc *SCase, m *refmodel.Model) []refmodel.Doc {
-			base := m.Docs(1)[0].V
-			return c04Docs(base, paths[sc.ID])
-		}})
-	ctx.Run.Assume("a property that declares a default is never required (statement: 'and not given a default')",
-		"null for a required non-nullable property is outside the statement and not generated")
+	return cases, paths
 }
 
 func getPath(v any, path []any) any {
